@@ -65,7 +65,7 @@ CHECKS = {
         design_ref="5/C13, 2.5", note="Trusted base: rustc's overflow checks and the crate's own debug_assert!s as the monitors; the structure-aware generators reach only what they construct. No proof of panic freedom."),
     "C14": dict(
         technique="compiler coverage instrumentation (SanitizerCoverage edges + load/store addresses) with an online trace-equality monitor; valgrind memcheck secret-taint; callgrind profile equality",
-        text="dudect_keygen_sign_with_rng and each secret-handling kernel (via verif_hooks) are run in SanitizerCoverage-instrumented optimised builds; the complete edge sequence and load/store address sequence are hashed per run and must be identical for every RNG output / in-domain input (first divergence is located and symbolised when not). Kernels are additionally run under memcheck with their inputs marked undefined (secret taint at machine-code level); thorough adds opt-levels 1 and s and callgrind profile equality for the pipeline.",
+        text="dudect_keygen_sign_with_rng and each secret-handling kernel (via verif_hooks) are run in SanitizerCoverage-instrumented optimised builds; the complete edge sequence and load/store address sequence are hashed per run and must be identical for every RNG output / in-domain input (first divergence is located and symbolised when not). The pipeline inputs include RNG outputs predicted by the instrumented reference (constant-time-test mode) to drive rare key-generation events. Kernels AND the whole pipeline are additionally run under memcheck with their secret inputs marked undefined (secret taint at machine-code level; the only allowed reporting site is bit_unpack's constant-outcome range check inside expand_mask); thorough adds opt-levels 1 and s and callgrind profile equality for the pipeline.",
         design_ref="5/C14, 2.6", note="Trusted base: LLVM's sancov pass inserts a callback on every edge, load and store of the allow-listed crates (fips204, the driver, sha3, keccak, digest, block-buffer, zeroize, rand_core); memcpy intrinsics are not traced; valgrind's definedness tracking. Micro-architectural timing is out of scope, as for the property. Finite set of inputs."),
     "C15": dict(
         technique="runtime monitoring by exhaustive domain sweeps through verif_hooks against big-integer definitions",
